@@ -48,12 +48,18 @@ Lemma verdicts_ext : forall s s' c,
   lookup s' c = lookup s c -> (forall k, resolve s' c k = resolve s c k) ->
   verdicts s' c = verdicts s c.
 Proof.
-  unfold verdicts. intros s s' c L R. rewrite L. destruct (lookup s c) as [r |]; auto.
-  destruct (c_kind r) as [[| | |] | |]; auto.
-  - f_equal; apply map_ext; intros.
-    + apply validate_native_int_ext. auto.
-    + apply validate_string_dec_ext. auto.
-  - apply map_ext. intros. apply validate_string_uni_ext. auto.
+  unfold verdicts. intros s s' c L R. rewrite L. destruct (lookup s c) as [r |]; [| reflexivity].
+  destruct (c_kind r) as [[| | |] | |].
+  - rewrite (map_ext (validate_native_int (resolve s' c)) (validate_native_int (resolve s c)))
+      by (intros; apply validate_native_int_ext; exact R).
+    rewrite (map_ext (validate_string_dec (resolve s' c)) (validate_string_dec (resolve s c)))
+      by (intros; apply validate_string_dec_ext; exact R).
+    reflexivity.
+  - apply map_ext. intros. apply validate_string_uni_ext. exact R.
+  - reflexivity.
+  - reflexivity.
+  - reflexivity.
+  - reflexivity.
 Qed.
 
 Lemma evo_same_view : forall T s s' c,
@@ -101,8 +107,7 @@ Lemma same_view_trans : forall s1 s2 s3 c,
 Proof.
   unfold same_view. intros s1 s2 s3 c [A1 [A2 [A3 [A4 [A5 [A6 A7]]]]]] [B1 [B2 [B3 [B4 [B5 [B6 B7]]]]]].
   split; [congruence | split; [| split; [| split; [| split; [| split]]]]]; try congruence.
-  - intros. rewrite B2, A2. auto.
-  - intros. rewrite B3, A3. auto.
+  all: intros; first [rewrite B2, A2; reflexivity | rewrite B3, A3; reflexivity].
 Qed.
 
 Lemma same_view_refl : forall s c, same_view s s c.
@@ -223,11 +228,11 @@ Lemma resolve_new : forall s r' fuel k,
   end.
 Proof.
   intros s r' fuel k W [c [B Bc]]. simpl resolve_f.
-  change (nth_cls (cl (fst (alloc s r'))) (size s)) with (lookup (fst (alloc s r')) (size s)).
-  rewrite lookup_alloc_new. destruct (zassoc k (c_attrs r')); auto. rewrite B.
-  apply (resolve_agree (cl s) _ (fun x => 0 <= x < size s)); auto.
-  - intros. apply (lookup_alloc_old s r' x). lia.
-  - apply wf_closed. auto.
+  unfold size. rewrite nth_cls_app_new. destruct (zassoc k (c_attrs r')); [reflexivity |]. rewrite B.
+  apply (resolve_agree (cl s) _ (fun x => 0 <= x < size s)).
+  - intros. apply nth_cls_app_old. unfold size in H. lia.
+  - apply wf_closed. exact W.
+  - exact Bc.
 Qed.
 
 Definition fresh_lookup (s : store) (c : cid) (kw : kwargs) (fuel : nat) (k : akey) : option aval :=
@@ -272,14 +277,14 @@ Proof.
      (apply_kwargs kw1 (fresh_attrs s c)) tn (Some (orig_or_self r c)) ex []))) by (rewrite <- A; auto).
   assert (N : n = size s) by (unfold alloc in A; inversion A; auto).
   subst n. split; [exact L | split; [exact K | split; [exact D | split; [reflexivity |]]]].
-  split; [subst s'; apply lookup_alloc_new |]. simpl.
+  split; [subst s'; apply lookup_alloc_new |]. cbn [c_kind c_base c_orig c_fields].
   split; [reflexivity | split; [reflexivity | split; [| split; [reflexivity |]]]].
   - unfold root_of. rewrite L. reflexivity.
   - intros. subst s'. rewrite resolve_new; auto.
     + simpl. rewrite zassoc_apply_kwargs. unfold fresh_lookup.
-      destruct (requested k kw1); auto. rewrite zassoc_fresh_attrs.
-      destruct (k =? K_EXPLICIT_TN); auto. destruct (k =? K_NULLABLE) eqn:E; auto.
-      destruct (resolve s c K_NULLABLE); auto.
-      apply Z.eqb_eq in E. subst. auto.
+      destruct (requested k kw1); [reflexivity |]. rewrite zassoc_fresh_attrs.
+      destruct (k =? K_EXPLICIT_TN); [reflexivity |].
+      destruct (k =? K_NULLABLE) eqn:E; reflexivity.
     + simpl. exists c. split; auto. eapply lookup_some; eauto.
 Qed.
+
